@@ -3,8 +3,8 @@
   receiverErrorHandlers        number of `except … ReceiverError …` handlers in `MetricFetcher`
   receiverErrorHandlersCatch   every one of them names the class itself (`except ReceiverError`), not a subscripted
                                generic (`except ReceiverError[Any]` raises TypeError instead of catching)
-  threePhaseZipUnsynchronised  `FormulaEngine3Phase._run` receives from the three per-phase engines one after the
-                               other and builds the sample without comparing/looping on timestamps
+  threePhaseResyncs            `FormulaEngine3Phase._run` advances the lagging per-phase receivers to the latest of the
+                               three timestamps before building the sample (false: it zips them as they come)
   applyWaitsAllCompleted       `FormulaEvaluator.apply` waits for all fetchers (`return_when=asyncio.ALL_COMPLETED`)
   defaultOutputCapacity        default `max_size` of `FormulaEngine.new_receiver`
 """
@@ -59,7 +59,20 @@ def generate(repo: pathlib.Path) -> str:
         raise ValueError("FormulaEngine3Phase._run: expected one main loop")
     inner_loops = [n for n in ast.walk(outer[0]) if isinstance(n, (ast.While, ast.For)) and n is not outer[0]]
     compares_ts = any(isinstance(n, ast.Compare) and _mentions(n, "timestamp") for n in ast.walk(outer[0]))
-    unsync = len(recvs) == 3 and not inner_loops and not compares_ts
+    if len(recvs) == 3 and not inner_loops and not compares_ts:
+        resync = False  # pinned shape: three receives zipped as they come
+    else:
+        # fixed shape (fixes/C06-3phase-resync.patch): a latest timestamp is computed with max(...) and every phase
+        # has a `while <phase>.timestamp < latest: <phase> = await <rx>.receive()` loop
+        loops = [n for n in inner_loops if isinstance(n, ast.While) and isinstance(n.test, ast.Compare)
+                 and _mentions(n.test, "timestamp") and len(n.test.ops) == 1 and isinstance(n.test.ops[0], ast.Lt)
+                 and any(isinstance(x, ast.Await) for x in ast.walk(n))]
+        has_max = any(isinstance(n, ast.Call) and isinstance(n.func, ast.Name) and n.func.id == "max"
+                      and _mentions(n, "timestamp") for n in ast.walk(outer[0]))
+        if len(loops) == 3 and len(inner_loops) == 3 and has_max and len(recvs) == 6:
+            resync = True
+        else:
+            raise ValueError("FormulaEngine3Phase._run: neither the pinned zip nor the resynchronising shape")
 
     apply_fn = _fn(_cls(evaluator, "FormulaEvaluator"), "apply")
     _fn(_cls(evaluator, "FormulaEvaluator"), "_synchronize_metric_timestamps")
@@ -80,7 +93,7 @@ def generate(repo: pathlib.Path) -> str:
         "namespace Extracted.Evaluator\n\n"
         f"def receiverErrorHandlers : Nat := {len(handlers)}\n"
         f"def receiverErrorHandlersCatch : Bool := {b(catch)}\n"
-        f"def threePhaseZipUnsynchronised : Bool := {b(unsync)}\n"
+        f"def threePhaseResyncs : Bool := {b(resync)}\n"
         f"def applyWaitsAllCompleted : Bool := {b(all_completed)}\n"
         f"def defaultOutputCapacity : Nat := {cap}\n\n"
         "end Extracted.Evaluator\n"
